@@ -89,6 +89,20 @@ def java_classpath():
 JAVA_BATCH = 24      # programs per javac invocation (javac start-up is about 2 s)
 
 
+def _aldor(build, args, cwd, timeout, env, cpu_limit=None):
+    """vlib.aldor, optionally under a processor-time limit (seconds).  A wall-clock limit alone cannot tell a compiler
+    that does not terminate from one that is starved on a loaded machine; with cpu_limit the run is cut when it has
+    *used* that much processor time (SIGXCPU), and `timeout` is only the backstop.  Returns (rc, out, err, timed_out)
+    with timed_out also true when the processor-time limit was hit."""
+    if not cpu_limit:
+        return vlib.aldor(build, args, cwd, timeout=timeout, env=env)
+    cmd = ["prlimit", "--cpu=%d:%d" % (cpu_limit, cpu_limit + 5), build["aldor"]] + vlib.ALDOR_BASE_ARGS + list(args)
+    rc, out, err, to = vlib.run(cmd, cwd=cwd, timeout=timeout, env=env)
+    if rc is not None and rc in (-24, -9, 128 + 24, 128 + 9) and not to:
+        to = True          # SIGXCPU (soft limit) or SIGKILL (hard limit)
+    return rc, out, err, to
+
+
 def dialect_of(prog):
     return prog.get("render_opts", {}).get("dialect") or "axllib"
 
@@ -114,15 +128,15 @@ def java_unit(prog, qlevel, extra_args=()):
     return "u_" + "".join(c if c.isalnum() else "_" for c in prog["id"]) + ("_q%s" % qlevel if qlevel is not None else "") + tag
 
 
-def java_emit(build, prog, workdir, qlevel=None, extra_args=(), timeout=60, env=None):
+def java_emit(build, prog, workdir, qlevel=None, extra_args=(), timeout=60, env=None, cpu_limit=None):
     """Step 1 of route 'java': aldor -Jmain -Fjava <unit>.as.  Returns a job record; job["res"] is set iff it failed."""
     d = _jobdir(prog, "java", workdir, qlevel, extra_args)
     unit = java_unit(prog, qlevel, extra_args)
     with open(os.path.join(d, unit + ".as"), "w") as fh:
         fh.write(render.render(prog))
     q = ["-Q%s" % qlevel] if qlevel is not None else []
-    rc, out, err, to = vlib.aldor(build, DIALECT_ARGS[dialect_of(prog)] + q + list(extra_args) + ["-Jmain", "-Fjava", unit + ".as"],
-                                  d, timeout=timeout, env=env)
+    rc, out, err, to = _aldor(build, DIALECT_ARGS[dialect_of(prog)] + q + list(extra_args) + ["-Jmain", "-Fjava", unit + ".as"],
+                              d, timeout, env, cpu_limit)
     job = {"dir": d, "unit": unit, "java": os.path.join(d, "aldorcode", unit + ".java"), "res": None, "classes": None}
     if rc != 0 or to or not os.path.exists(job["java"]):
         job["res"] = _res(rc, out, err, "compile", to, d)
@@ -160,12 +174,12 @@ def java_run(job, timeout=60, env=None):
     return job["res"]
 
 
-def run_program(build, prog, route, workdir, qlevel=None, extra_args=(), timeout=60, env=None):
+def run_program(build, prog, route, workdir, qlevel=None, extra_args=(), timeout=60, env=None, cpu_limit=None):
     """Render prog into workdir/<id>.as and run it by route 'interp', 'ao', 'c' or 'java'.
     Returns dict(rc, out, err, phase) where phase tells where a failure happened
     (java: 'compile' = aldor -Fjava, 'javac', 'run')."""
     if route == "java":
-        job = java_emit(build, prog, workdir, qlevel, extra_args, timeout, env)
+        job = java_emit(build, prog, workdir, qlevel, extra_args, timeout, env, cpu_limit)
         java_compile([job], os.path.join(job["dir"], "classes"))
         return java_run(job, timeout, env)
     d = _jobdir(prog, route, workdir, qlevel, extra_args)
@@ -174,7 +188,7 @@ def run_program(build, prog, route, workdir, qlevel=None, extra_args=(), timeout
         fh.write(render.render(prog))
     q = DIALECT_ARGS[dialect_of(prog)] + (["-Q%s" % qlevel] if qlevel is not None else [])
     if route == "interp":
-        rc, out, err, to = vlib.aldor(build, q + list(extra_args) + ["-Ginterp", "p.as"], d, timeout=timeout, env=env)
+        rc, out, err, to = _aldor(build, q + list(extra_args) + ["-Ginterp", "p.as"], d, timeout, env, cpu_limit)
         return {"rc": rc, "out": out.decode(errors="replace"), "err": err.decode(errors="replace"), "phase": "interp", "timeout": to, "dir": d}
     if route == "ao":
         # save the machine-independent object, then interpret the saved form
@@ -195,7 +209,7 @@ def run_program(build, prog, route, workdir, qlevel=None, extra_args=(), timeout
     raise ValueError(route)
 
 
-def run_many(build, jobs, workdir, nproc=None, timeout=60, timing=None):
+def run_many(build, jobs, workdir, nproc=None, timeout=60, timing=None, cpu_limit=None):
     """jobs: list of (prog, route, qlevel, extra_args). Returns list of results in order.
     Jobs of route 'java' are grouped into batches (at most JAVA_BATCH units per javac invocation, spread over the
     processors); each batch is emitted, compiled by one javac and run as soon as its own units are ready, so a unit
@@ -214,8 +228,8 @@ def run_many(build, jobs, workdir, nproc=None, timeout=60, timing=None):
     batches = [jidx[k:k + per] for k in range(0, len(jidx), per)]
     with concurrent.futures.ThreadPoolExecutor(max_workers=ncpu) as ex, \
             concurrent.futures.ThreadPoolExecutor(max_workers=max(1, len(batches))) as bx:
-        jf = {i: ex.submit(java_emit, build, jobs[i][0], workdir, jobs[i][2], jobs[i][3], timeout) for i in jidx}
-        futs = {i: ex.submit(run_program, build, p, route, workdir, q, xa, timeout)
+        jf = {i: ex.submit(java_emit, build, jobs[i][0], workdir, jobs[i][2], jobs[i][3], timeout, None, cpu_limit) for i in jidx}
+        futs = {i: ex.submit(run_program, build, p, route, workdir, q, xa, timeout, None, cpu_limit)
                 for i, (p, route, q, xa) in enumerate(jobs) if route != "java"}
 
         def do_batch(n, b):
